@@ -53,6 +53,9 @@ Definition ann_line (w : nat) (name : str) (cells : list str) : str :=
 Definition msa_row_line (w : nat) (id : Z) (taxon : str) (row : list str) : str :=
   show_int id ++ 9 :: ljust w taxon ++ 9 :: join [9] row.
 
+Definition msa_row_of (w : nat) (p : Z * str * list str) : str :=
+  msa_row_line w (fst (fst p)) (snd (fst p)) (snd p).
+
 Fixpoint upd {A} (i : nat) (x : A) (l : list A) : list A :=
   match l, i with
   | [], _ => []
@@ -89,12 +92,13 @@ Definition msa_body (stamp : list str) (m : msa) : list str :=
       | Some (x :: c) => [ann_line w s_CONSENSUS (cons_cells n (x :: c))]
       | _ => []
       end)
-  ++ [35] :: map (fun p => let '(id, t, row) := p in msa_row_line w id t row) (zip3 (m_ids m) (m_taxa m) (m_alm m)).
+  ++ [35] :: map (msa_row_of w) (zip3 (m_ids m) (m_taxa m) (m_alm m)).
 
 (* wl2qlc: a '#' line, the <msa id=.. ref=..> line (with a consensus attribute when the key is there), msa2str, </msa> *)
+Definition attr (k v : str) : str := k ++ 61 :: 34 :: v ++ [34].                 (* k=QUOTE v QUOTE *)
 Definition msa_header (ref : str) (k : Z) (m : msa) : str :=
-  s_msa_open ++ show_int k ++ s_ref_attr ++ ref
-  ++ (match m_cons m with Some c => s_cons_attr ++ join [32] c | None => [] end) ++ s_tag_end.
+  60 :: s_msa ++ 32 :: attr s_idk (show_int k) ++ 32 :: attr s_refk ref
+  ++ (match m_cons m with Some c => 32 :: attr s_consensus (join [32] c) | None => [] end) ++ [62].
 Definition msa_block (ref : str) (e : Z * list str * msa) : list str :=
   let '(k, stamp, m) := e in [35] :: msa_header ref k m :: msa_body stamp m ++ [s_msa_close].
 (* an empty line, the line '# MSA reference: {0}', the blocks *)
